@@ -6,7 +6,9 @@ proof:  Props/C15.v.  Part A (Model/Rename.v over Model/Sem.v, every flavour): a
         step that refers to existing columns the step equals the same step with its scratch values in locals (nothing
         captured / overwritten / dropped) and commutes with every injective renaming of the user's columns; with the bare
         base names (the code before the fix) a user column of that name changes the step (one witness per class, all in
-        the regression corpus); WITH-query name resolution for SQL (guarded + refuted: a listed known finding).
+        the regression corpus); SQL: the view numbering rule of to_sql (161d83f) makes every generated view name differ
+        from every table of the pipeline, so a WITH query resolves each name as meant (unguarded); Polars (85ef226):
+        scratch names listed in `reserved`, steps not transcribed (oracle + corpus).
 tie:    (a) each backend's real result on RENAMED pipelines vs sem_gen <flavour> inside Coq; (b) Model/ScratchCases.v:
         real Pandas steps with one column renamed to each scratch name vs the model's prediction, the scratch names
         COLLECTED FROM THE SOURCE by an AST scan vs the model's table `reserved` (both ways), the view names of real
@@ -129,6 +131,7 @@ RESERVED = {
     ("exact", "_data_algebra_orig_index"): ("column", "pandas", "extend_orig_index"),
     ("exact", "_data_algebra_temp_g"): ("column", "pandas", "extend_standin"),
     ("exact", "data_algebra_temp_merge_col"): ("column", "pandas", "join_merge_key"),
+    ("exact", "data_algebra_temp_null_key_col"): ("column", "pandas", "join_null_key"),
     ("suffix", "_tmp_right_col"): ("column", "pandas", "join_suffix"),
     ("exact", "_da_temp_zero_column"): ("column", "polars", "temp_literal"),
     ("exact", "_da_temp_one_column"): ("column", "polars", "temp_literal"),
@@ -137,7 +140,7 @@ RESERVED = {
     ("exact", "_da_project_temp_group_by_column"): ("column", "polars", "project_standin"),
     ("prefix", "_da_extend_temp_v_column_"): ("column", "polars", "extend_const"),
     ("prefix", "_da_project_temp_v_column_"): ("column", "polars", "project_const"),
-    ("suffix", "_da_join_tmp_key"): ("column", "polars", "join_suffix"),
+    ("exact", "_da_join_scratch_key"): ("column", "polars", "join_merge_key"),
     ("suffix", "_da_left_tmp"): ("column", "polars", "join_suffix"),
     ("suffix", "_da_right_tmp"): ("column", "polars", "join_suffix"),
     ("prefix", "table_reference_"): ("table", "sql", "view_name"),
@@ -552,6 +555,8 @@ LEFT_W = {"g": ["b", "a", "c", "a", "b"], "h": ["u", "v", "u", "v", "u"], "x": [
           "y": [4.0, 5.0, 2.0, 1.0, 3.0], "z": [7.5, 8.5, 9.5, 6.5, 5.5]}
 LEFT_J = {"k": [1, 2, 3, 4], "x": [10.5, None, 30.25, 40.0], "y": [1.5, 2.5, 3.5, 4.5]}
 RIGHT_J = {"k": [1, 2, 5], "x": [100.5, 200.25, 500.0], "w": [7.5, 8.5, 9.5]}
+LEFT_N = {"k": [1.0, None, 3.0, 4.0], "x": [10.5, None, 30.25, 40.0], "y": [1.5, 2.5, 3.5, 4.5]}
+RIGHT_N = {"k": [1.0, None, 5.0], "x": [100.5, 200.25, 500.0], "w": [7.5, 8.5, 9.5]}
 LEFT_C = {"g": ["a", "b"], "y": [1.5, 2.5]}
 RIGHT_C = {"q": [10.5, 20.25, 30.0], "w": [7.5, 8.5, 9.5]}
 
@@ -582,10 +587,14 @@ TEMPLATES = [
     {"id": "J2", "kind": "join", "how": "FULL", "on": ["k"], "slots": ["L:y", "R:w"]},
     {"id": "J3", "kind": "join", "how": "INNER", "on": ["k"], "slots": ["L:y", "R:w"]},
     {"id": "J4", "kind": "join", "how": "CROSS", "on": [], "slots": ["L:y", "R:w", "L:g"]},
+    {"id": "J5", "kind": "join", "how": "LEFT", "on": ["k"], "nulls": True, "slots": ["L:y", "R:w", "B:x"]},
+    {"id": "J6", "kind": "join", "how": "FULL", "on": ["k"], "nulls": True, "slots": ["L:y", "R:w"]},
 ]
 def template_frames(t):
     if t["kind"] != "join":
         return dict(LEFT_W), None
+    if t.get("nulls"):
+        return dict(LEFT_N), dict(RIGHT_N)
     return (dict(LEFT_C), dict(RIGHT_C)) if not t["on"] else (dict(LEFT_J), dict(RIGHT_J))
 
 
@@ -648,7 +657,7 @@ def template_term(t, slot, new, captured):
         return f"(ArgCol {cstr(cl(v))})" if kind == "c" else f"(ArgVal {cstr(v)})"
     sl = lambda xs: clist([cstr(x) for x in xs])                      # noqa: E731
     if t["kind"] == "join":
-        step = f"(PJoin {cstr(t['how'])} {sl(t['on'])})"
+        step = f"(PJoin {cstr(t['how'])} {sl(t['on'])} {cbool(bool(t.get('nulls')))})"       # nulls: both inputs have a row with a null key
     else:
         ops = clist([f"(mksop {cstr(cl(k))} {cstr(a['fn'])} {carg(a)} {sl(a['extra'])})" for k, a in t["ops"].items()])
         if t["kind"] == "project":
@@ -688,7 +697,7 @@ def scratch_prepare(chk, entries, found):
     # template x slot x name (quick: the names of the template's own step kind and one ordinary name; thorough: all)
     by_kind = {"project": ["_data_table_temp_col", "data_algebra_project_temp_col_0", "data_algebra_project_temp_col_1"],
                "wextend": ["data_algebra_extend_temp_col_0", "data_algebra_extend_temp_col_1", "_data_algebra_orig_index", "_data_algebra_temp_g"],
-               "join": ["data_algebra_temp_merge_col", "x_tmp_right_col", "y_tmp_right_col", "k_tmp_right_col"]}
+               "join": ["data_algebra_temp_merge_col", "x_tmp_right_col", "y_tmp_right_col", "k_tmp_right_col", "data_algebra_temp_null_key_col"]}
     for k_ in by_kind:                                        # and the first fallback names ("_" + base; suffix + "_")
         by_kind[k_] = by_kind[k_] + [("_" + n if not n.endswith("_tmp_right_col") else n + "_") for n in by_kind[k_][:2]]
     allnames = [n for v in by_kind.values() for n in v]
@@ -908,7 +917,7 @@ def run(chk):
         "hand model Model/ScratchNames.v: name-by-name transcription of the scratch columns of pandas_base._project_step / _extend_step (windowed) / _natural_join_step "
         "(on_a = on_b) with the names _unused_column_name / the join-suffix loop choose (names_in_use kept fixed within one step: the base names differ after their leading "
         "underscores); the library calls (groupby / transform / agg / merge / sort_values) abstract, pandas.merge column naming modelled by hand; WITH-query name resolution "
-        "(a CTE name shadows a base table) -- sampled against the real steps and real generated SQL on every run",
+        "(a CTE name shadows a base table) and the view numbering rule of to_sql -- sampled against the real steps and real generated SQL on every run",
         "the AST scan of harness/props/C15.py (which string literals stand in name positions) and the table `reserved` it is compared with; Polars scratch names are listed, not transcribed",
         "harness/semconv.py, harness/pipes.py, harness/execcorr.py (PostgreSQL-dialect text runs on SQLite 3.40.1; no PostgreSQL server here)"]
     chk.assumptions = ["names containing the identifier quote character are outside the property; columns referred to inside expression SOURCE keep identifier names (the expression grammar)",
@@ -942,7 +951,7 @@ def run(chk):
         try:
             j = json.load(open(fpath))
             case = X.case_from_json(j["case"])
-            for b in ([j["backend"]] if j.get("backend") else BACKENDS):
+            for b in ([j["backend"]] if j.get("backend") else j.get("backends") or BACKENDS):
                 eff, detail, _, _ = oracle(case, j.get("rt", {}), j.get("rc", {}), b)
                 if eff is not None:
                     report(chk, case, j.get("rt", {}), j.get("rc", {}), b, eff, detail, entries, shrink=False)
